@@ -29,7 +29,9 @@ pub fn random_case(r: &mut Rng, max_items: usize) -> Case {
   // a zero-length window is legal for debounce and throttle (every item opens and closes its own window)
   let wz = if r.chance(1, 8) { 0 } else { w };
   let op = match r.below(12) {
-    0 | 1 | 2 => Op::Debounce(wz),
+    0 | 1 => Op::Debounce(wz),
+    // sub-millisecond windows: the scripted gaps (whole ms) are then either 0 or longer than the window
+    2 => Op::DebounceUs([400u64, 900, 1500][r.below(3)]),
     3 | 4 | 5 => Op::ThrottleTime(wz, e),
     6 | 7 => Op::Throttle(wz, e),
     8 => Op::Sample(Box::new(Chain::new(Src::Interval(w), vec![]))),
@@ -379,6 +381,7 @@ pub fn judge(c: &Case, o: &Result<Obs, String>) -> Option<(String, serde_json::V
       // zero-length windows: invariants only (the window end coincides with its own opener)
       Op::Debounce(0) | Op::ThrottleTime(0, _) | Op::Throttle(0, _) => None,
       Op::Debounce(d) => Some(debounce_model(*d * MS, &c.script)),
+      Op::DebounceUs(d) => Some(debounce_model(*d * 1000, &c.script)),
       Op::ThrottleTime(_, e) | Op::Throttle(_, e) => Some(throttle_model(&c.op, *e, &c.script)),
       Op::Sample(ch) => match ch.src {
         Src::Interval(w) if c.script.last().map_or(false, |(_, n)| n.is_terminal()) => {
@@ -412,12 +415,17 @@ pub fn judge(c: &Case, o: &Result<Obs, String>) -> Option<(String, serde_json::V
     // late runs: a timer-driven emission is never earlier than arrival + window
     let arrive = |id: i64| c.script.iter().find(|(_, n)| matches!(n, N::Next(v) if v.int() == id)).map(|(t, _)| *t);
     let end_t = c.script.last().filter(|(_, n)| n.is_terminal()).map(|(t, _)| *t);
-    if let Op::Debounce(d) = c.op {
+    let window = match c.op {
+      Op::Debounce(d) => Some(d * MS),
+      Op::DebounceUs(d) => Some(d * 1000),
+      _ => None,
+    };
+    if let Some(window) = window {
       for (t, n) in &o.timed {
         if let N::Next(v) = n {
           let a = arrive(v.int()).unwrap_or(0);
           let flushed_on_complete = end_t.map_or(false, |e| *t >= e) && src_ids.last() == Some(&v.int());
-          if *t < a + d * MS && !flushed_on_complete {
+          if *t < a + window && !flushed_on_complete {
             return Some(("early_emission".into(), show(format!("item {} arrived at {} emitted at {} (< window)", v.int(), a, t))));
           }
         }
